@@ -4,6 +4,7 @@ import RsslVerif.Lemmas.LexerFloat
 import RsslVerif.Lemmas.Dec2Bin
 import RsslVerif.Lemmas.Dec2BinNearest
 import RsslVerif.Lemmas.Dec2BinCutoff
+import RsslVerif.Lemmas.Dec2BinMono
 /-!
 # C10 — lexing is lossless and numeric literals are exact
 
@@ -394,6 +395,25 @@ theorem nearest_correct_partial (f : Fmt) (hf : f = binary64 ∨ f = binary32) (
   exact ⟨q, A, B, m, h1, h2, h3, h4, h5, h6,
     fun hq T m' hT hm' => finer_grid_not_closer f.p A B m m' T h2 (by omega) (h8 hq) hm' hT h4,
     h7, h8, h9, h10, h11⟩
+
+open Dec2Bin in
+/-- **nearest_monotone**: `N/M ≤ N'/M'` ⟹ `nearestRat f N M ≤ nearestRat f N' M'` (the bit patterns of non-negative
+floats are ordered like their values, `+∞` on top) -/
+theorem nearest_monotone (f : Fmt) (hf : f = binary64 ∨ f = binary32) (N M N' M' : Nat) (hM : 0 < M) (hM' : 0 < M')
+    (h : N * M' ≤ N' * M) : nearestRat f N M ≤ nearestRat f N' M' :=
+  nearestRat_mono f (by rcases hf with h | h <;> subst h <;> decide) N M N' M' hM hM' h
+
+open Dec2Bin in
+/-- … and for decimal texts: a literal that spells a larger number never lexes to a smaller double -/
+theorem nearest64_monotone (ds ds' : List Nat) (e e' : Int) (hds : ∀ d ∈ ds, d < 10) (hds' : ∀ d ∈ ds', d < 10)
+    (h : (decimalRat ds e).1 * (decimalRat ds' e').2 ≤ (decimalRat ds' e').1 * (decimalRat ds e).2) :
+    nearest64 ds e ≤ nearest64 ds' e' := by
+  rw [nearest64_total ds e hds, nearest64_total ds' e' hds']
+  have pos : ∀ (l : List Nat) (x : Int), 0 < (decimalRat l x).2 := by
+    intro l x; unfold decimalRat; split
+    · exact Nat.one_pos
+    · exact Nat.pow_pos (by omega)
+  exact nearest_monotone binary64 (.inl rfl) _ _ _ _ (pos ds e) (pos ds' e') h
 
 open Dec2Bin in
 /-- **nearest_exact_on_representable**: a positive finite value `m · 2^q` of the format (canonical
